@@ -215,9 +215,33 @@ func ibeCombos() []ibeCombo {
 	return out
 }
 
+// ibeTagsIntact: the domain-separation tags handed out by the exported getters still have their
+// documented values; the slices obtained are then overwritten (they belong to the caller) - a getter
+// that hands out the package's own storage lets any caller change the hashes of the whole process.
+func ibeTagsIntact(junk byte) string {
+	for _, tg := range []struct {
+		name string
+		get  func() []byte
+		want string
+	}{{"H2Tag", ibe.H2Tag, "IBE-H2"}, {"H3Tag", ibe.H3Tag, "IBE-H3"}, {"H4Tag", ibe.H4Tag, "IBE-H4"}} {
+		b := tg.get()
+		if string(b) != tg.want {
+			return fmt.Sprintf("ibe.%s() = %q, documented value %q (a caller overwrote a slice it had been given)", tg.name, b, tg.want)
+		}
+		for i := range b {
+			b[i] = junk + byte(i)
+		}
+	}
+	return ""
+}
+
 func c16IBE(t *rapid.T, ev *evProp) {
 	cs := ibeCombos()
 	c := cs[uniformInt(t, 0, len(cs)-1, "combo")]
+	if why := ibeTagsIntact(rapid.Byte().Draw(t, "tagjunk")); why != "" {
+		violationOrKnown(t, ev, "C16/ibe/tags-shared", "%s", why)
+		return
+	}
 	s := c.si.S
 	hs := s.Hash().Size()
 	// master key pair and identity key
